@@ -2,7 +2,7 @@
 from vlib import *
 import conc
 from props.gpcommon import gp_component
-from props import qsbr_parts
+from props import qsbr_parts, bp_parts
 
 LEVEL = "model_checking"
 ASSUMPTIONS = ["x86-TSO memory model; compiler barriers are honoured by the compiler (not modelled)",
@@ -21,12 +21,16 @@ def run(ctx):
     ctx.extra.setdefault("flavors_covered", []).extend(["mb", "memb+sys_membarrier", "memb without sys_membarrier"])
     if len(ctx.violations) < conc.MAXV:
         qsbr_parts.run_c01(ctx); ctx.extra["flavors_covered"].append("qsbr")
+    if len(ctx.violations) < conc.MAXV:
+        bp_parts.run_c01(ctx); ctx.extra["flavors_covered"].append("bp (+/- sys_membarrier)")
 
 
 def replay(ctx, path):
     import json, os
     if qsbr_parts.is_mine(path):
         return qsbr_parts.replay_c01(ctx, path)
+    if bp_parts.is_bp_replay(path):
+        return bp_parts.replay(ctx, path)
     meta = json.load(open(os.path.join(path, "meta.json")))
     drv = meta.get("driver_name", "")
     comp = gp_component("memb", True) if "memb_sys" in drv else gp_component("memb", False) if "memb_nosys" in drv else gp_component("mb", False)
